@@ -1219,6 +1219,8 @@ class Stage:
 
     # Internal methods
     def _diffeq(self):
+        if self.nz>0 or self._alg:
+            raise Exception("Algebraic variables/equations are not supported for discrete-time systems (set_next).")
         val = []
         for k in self.states:
             try:
